@@ -44,13 +44,23 @@ arrays / typedefs / unnamed cs.<base>[n] types, records with a dynamic tail and 
 lengths equal to and beyond the encoding (for char types the T.size-long input takes the documented value-construction shortcut, whose
 value is the parsed value): every object under T(x), T.read(x), T.reads(x), cs.read(name, x) must give what plain bytes of the same
 content give.
+Sentinel collisions / negative array counts (harness/v8_c09.py:run_sentinel): the library marks "to the end of the stream" with an in-band
+integer count (types/base.py: EOF = -0xE0F); records valid by construction whose arrays are sized by an expression over preceding
+integer members (n, n + c, n - c, -n, c - n, ~n, n * c + r, (n - c) * 2 + r, m - n, n ^ c, with constants; members int8 .. int128,
+int24 / int48, aliases, ileb128, and unsigned types under negating forms) that evaluates to every value in a window around that
+constant, the constant itself, other special negative values (-1, -2, -128, -256, -32768, -2^31, -2^63 ...) and small non-negative
+controls; elements char, wchar, integers, float, enums, LEB128, structures, fixed inner arrays; the array last, followed by members,
+two per record, nested, in arrays of structures; packed / aligned, compiled / interpreted, both byte orders; plus the unnamed types
+cs.<base>[k] with a static negative k.  A negative count is an EMPTY array: at every start offset, for every stream kind x call form and
+buffer kind x call form, with different trailing bytes, the value and the consumed count are those of the reference parser; three
+records back to back and T[k] end where the reference says; interpreted cases also go to the Lean model.
 """
 from __future__ import annotations
 
 import io
 import itertools
 
-from .. import defs, impl, refimpl, s3_c09, u2_c09, v4_c09, v5_c09
+from .. import defs, impl, refimpl, s3_c09, u2_c09, v4_c09, v5_c09, v8_c09
 from ..common import Result, mkrng
 from ..structprops import Engine, load, real_parse, rand_bytes, has_eof
 
@@ -312,6 +322,14 @@ def run(env) -> Result:
                 "memoryviews over them; cs.inner(outer.payload)) - x generated structures, unions, scalars, enums, arrays, typedefs, "
                 "unnamed array types, dynamic-tail records, T[2] x contents (ASCII digits, text, noise; length = and > the encoding) x "
                 "T(x)/T.read/T.reads/cs.read: the value plain bytes of the same content give. "
+                "Negative array counts / collisions with the in-band end-of-stream marker (types/base.py EOF = -0xE0F): records valid by "
+                "construction whose array counts are expressions (n, n+c, n-c, -n, c-n, ~n, n*c+r, (n-c)*2+r, m-n, n^c, constants) over "
+                "preceding signed (int8..int128, int24/48, ileb128; unsigned under negation) members evaluating to every value within 6 of "
+                "the marker, the marker, -1/-2/-128/-256/-32768/-2^31/-2^63/..., and 0..5 x elements char/wchar/ints/float/enum/LEB128/"
+                "structures/inner arrays x shapes (last member, followed by members, two arrays, nested, array of structures) x {<,>} x "
+                "{packed, aligned} x {interpreted, compiled}, and unnamed cs.<base>[negative k]: a negative count is an empty array - start "
+                "offsets x different trailing bytes x stream kinds x call forms give the reference value and leave the stream at p + the "
+                "reference encoded size; buffer kinds x call forms; three records back to back; T[k]; the Lean model. "
                 "distinct = (definition, config, input, offset, kind); non-trivial = offset > 0 or a non-bytes input kind")
     eng = Engine(env, res, "C09")
     rnd = mkrng(env["seed"], "c09")
@@ -348,6 +366,7 @@ def run(env) -> Result:
     run_long(env, eng, res, mkrng(env["seed"], "c09-long"))
     v4_c09.run_mixed(env, eng, res, mkrng(env["seed"], "c09-mixed"))
     v5_c09.run_subclass(env, eng, res, mkrng(env["seed"], "c09-subclass"))
+    v8_c09.run_sentinel(env, eng, res, mkrng(env["seed"], "c09-sentinel"))
     return res
 
 
